@@ -124,6 +124,9 @@ def npInsert (xs : Array K) (i : Int) (v : K) : PyM (Array K) :=
   if 0 ≤ i then (if i ≤ xs.size then .ok (Basis.insertAt xs i.toNat v) else .error .index)
   else (if 0 ≤ i + xs.size then .ok (Basis.insertAt xs (i + xs.size).toNat v) else .error .index)
 
+/-- `np.maximum.accumulate(xs)` (running maximum; `Basis.cummax` of `Model/BasisOps.lean`). -/
+abbrev npMaxAccumulate (xs : Array K) : Array K := Basis.cummax xs
+
 /-- `np.sum(xs)`. -/
 def npSum (xs : Array K) : K := xs.foldl (· + ·) 0
 
